@@ -36,7 +36,10 @@ impl C11 {
 pub fn expired(w: &World, f: &Farm, cfg: &fm::Config, now: u64) -> bool {
     let left = f.farm_asset.amount.u128().saturating_sub(f.claimed_amount.u128());
     let ends_at = w.cfg.start_time as u128 + (f.preliminary_end_epoch as u128 + 1) * w.cfg.epoch_duration as u128;
-    left == 0 || ends_at + (cfg.farm_expiration_time as u128) < now as u128
+    // the contract compares nanosecond timestamps: with a sub-second block time the farm is
+    // already expired in the very second its expiration elapses
+    let limit = ends_at + (cfg.farm_expiration_time as u128);
+    left == 0 || limit < now as u128 || (limit == now as u128 && w.cfg.subsec_nanos > 0)
 }
 
 type Leg = (String, String, String, u128); // from, to, denom, amount
